@@ -4,11 +4,13 @@
 # usage: check.sh <ID> quick|thorough      or      check.sh <ID> replay <file>
 export GOFLAGS=-mod=mod GOPROXY=off
 unset GOTOOLCHAIN GOSUMDB
-cd /verif/harness || exit 2
-mkdir -p /verif/bin
-go build -o /verif/bin/vcheck ./cmd/vcheck || { echo "cannot build the driver" >&2; exit 2; }
+ROOT=$(cd "$(dirname "$0")" && pwd)
+export VERIF_ROOT="$ROOT"
+cd "$ROOT/harness" || exit 2
+mkdir -p "$ROOT/bin"
+go build -o "$ROOT/bin/vcheck" ./cmd/vcheck || { echo "cannot build the driver" >&2; exit 2; }
 id="$1"; mode="${2:-quick}"
 case "$mode" in
-  replay) exec /verif/bin/vcheck -prop "$id" -replay "$3" ;;
-  *)      exec /verif/bin/vcheck -prop "$id" -tier "$mode" ;;
+  replay) exec "$ROOT/bin/vcheck" -prop "$id" -replay "$3" ;;
+  *)      exec "$ROOT/bin/vcheck" -prop "$id" -tier "$mode" ;;
 esac
